@@ -508,6 +508,23 @@ def hook_c04(binp, tier, seed, wd):
     extra["big_vectors"] = {"vectors": len(v), "chunks": len(chunks), "violating_chunks": nbad, "panics_in_representable_range": npanic,
                             "sample": v[:2], "wall_s": round(time.time() - t0, 1)}
     log(f"[apalache] {len(v)} 128-bit vectors of the real helpers against ArithCore: {nbad} violating chunks, {npanic} panics ({time.time()-t0:.1f}s)")
+    # (d) second opinion: Apalache checks the lemmas over ALL naturals as invariants (and refutes two false variants)
+    ldir = os.path.join(wd, "apa-lemmas")
+    os.makedirs(ldir, exist_ok=True)
+    shutil.copy(os.path.join(SPEC, "ArithCore.tla"), ldir)
+    shutil.copy(os.path.join(SPEC, "proofs", "ArithApalache.tla"), ldir)
+    res = {}
+    for inv, want_ok in [("FloorMint", True), ("NoDilutionStake", True), ("NoDilutionSubmit", True), ("NoRoundTripProfit", True),
+                         ("FeeBound", True), ("False_StrictDilution", False), ("False_CeilMint", False)]:
+        rc, out = sh(["apalache-mc", "check", "--length=0", f"--inv={inv}", "ArithApalache.tla"], cwd=ldir, timeout=600)
+        ok = "EXITCODE: OK" in out
+        refuted = "EXITCODE: ERROR (12)" in out
+        if (want_ok and not ok) or (not want_ok and not refuted):
+            raise ToolError(f"Apalache lemma {inv}: expected {'to hold' if want_ok else 'to be refuted'}\n" + out[-1200:])
+        res[inv] = "holds for all naturals" if want_ok else "refuted (sanity)"
+    shutil.rmtree(os.path.join(ldir, "_apalache-out"), ignore_errors=True)
+    extra["apalache_lemmas"] = res
+    log(f"[apalache] {len(res)} lemma checks over unbounded naturals: 5 hold, 2 false variants refuted")
     extra["trusted_base"] = ["tlapm 1.6.0-pre with Z3/Zenon/Isabelle back ends", "TLC", "Apalache 0.58 + Z3"]
     return extra, viols
 
